@@ -1109,6 +1109,7 @@ macro_rules! eq_step {
 
 eq_step!(eq_q_azd_2_2, RAZD, [true, true, true], na = 2, nb = 2);
 eq_step!(eq_q_ab_1_2, RAB, [true, true], na = 1, nb = 2);
+eq_step!(eq_q_azd_sparse_2_2, RAZD, [false, true, true], na = 2, nb = 2);
 eq_step!(eq_t_dbwa_2_2, RDBWA, [true, true, true, true], na = 2, nb = 2);
 eq_step!(eq_t_dbwa_sparse_3_3, RDBWA, [false, true, false, true], na = 3, nb = 3);
 eq_step!(eq_t_empty_2_2, RAB, [false, false], na = 2, nb = 2);
